@@ -6,6 +6,7 @@
    !(a < b) -> b <= a does not break the proof, while a rewrite that changes the decision does). *)
 From Coq Require Import String List NArith ZArith Bool Lia.
 From Verif Require Import Model.Types Model.Admission Model.GoLite.
+From Verif Require Model.Proxy.
 Import ListNotations.
 
 Lemma addr_len_zero a : (addr_len a =? 0)%N = addr_eqb a AddrEmpty.
@@ -15,12 +16,16 @@ Proof. destruct s; reflexivity. Qed.
 
 Ltac glazy :=
   lazy -[N.eqb N.ltb N.leb Z.eqb Z.ltb Z.leb N.add N.sub N.mul Z.add Z.sub Z.mul Z.max Z.min N.max N.min Z.of_N Z.to_N
-         addr_eqb commitment_eqb verify_header verify_data key_address header_eqb addr_len sig_len Throttle.two64].
+         addr_eqb commitment_eqb verify_header verify_data key_address header_eqb addr_len sig_len Throttle.two64
+         Proxy.is_sent Proxy.e_ctx Proxy.contains Proxy.txt Proxy.e_msg].
 
 Ltac atom_in c :=
   match c with
   | context [match ?s with SigEmpty => _ | _ => _ end] => destruct s
   | context [match ?s with DSigEmpty => _ | _ => _ end] => destruct s
+  | context [Proxy.e_ctx ?e] => destruct (Proxy.e_ctx e) eqn:?
+  | context [Proxy.is_sent ?e ?s] => destruct (Proxy.is_sent e s) eqn:?
+  | context [Proxy.contains ?a ?b] => destruct (Proxy.contains a b) eqn:?
   | context [addr_eqb ?a ?b] => destruct (addr_eqb a b) eqn:?
   | context [commitment_eqb ?a ?b] => destruct (commitment_eqb a b) eqn:?
   | context [verify_header ?a ?b ?c] => destruct (verify_header a b c) eqn:?
